@@ -15,6 +15,19 @@ Re-reads on every run, from the current source tree,
     `MPI_Wait(&sendRequests[i], ..)`, or one `MPI_Waitall(n, sendRequests, ..)`), each bound being either
     `messageInformation_.size()` (all neighbours) or the counter that is incremented next to every `MPI_Irecv`
     (the receives really posted),
+  * (round four) the DIRECTION SELECTORS of communicator.hh: which of `buffers_[0]`/`buffers_[1]` `sendRecv` gathers into
+    and receives into for FORWARD and for !FORWARD, which member (`first`/`second`) of the `messageInformation_` entry
+    gives start, size and the `if(size_)` guard of `MPI_Irecv` and of `MPI_Issend` in either branch and of the scatter
+    after `MPI_Waitany`, which member of the `interfaces_` entry the two `MessageGatherer`s (size and index) and the two
+    `MessageScatterer`s use, and for the four `forward`/`backward` wrappers the template argument of `sendRecv` and
+    which parameter is gathered from / scattered to,
+  * (round four) the body of the loop of both `BufferedCommunicator::build` overloads: from which member of the interface
+    entry and with which container the two message sizes are computed, the condition under which an entry of
+    `messageInformation_` is inserted, the four arguments `MessageInformation(start,size)` x 2 and the two increments of
+    `bufferSize_[0..1]` as arithmetic expressions (grammar: + * integers parentheses comparisons && || ! over the two
+    sizes, `bufferSize_[0]`, `bufferSize_[1]`, `sizeof(IndexedType)`),
+  * (round four) the condition under which `Interface::strip` erases a neighbour (boolean expression over the sizes of
+    the two lists),
 and emits them as Lean definitions into lean/DuneVerif/Gen/C05.lean.  Model/C05.lean evaluates the generated tests in
 `countPass` / `addPass` and the driver realises every attribute-set mask through the generated `contains`
 functions, so `interface_spec` (through `passesCount_eq`, `passesAdd_eq`) and the theorems `attrsets_spec`,
@@ -161,6 +174,494 @@ def parse_send_recv(src):
     if not re.search(r"new\s+MPI_Request\s*\[\s*messageInformation_\s*\.\s*size\s*\(\s*\)\s*\]", body):
         raise TranslateError("sendRecv: request arrays are not sized messageInformation_.size()")
     return res
+
+
+# ---------------------------------------------------------------------------------------------------------------
+# round four: direction selectors, build layout, strip
+DEFAULT_DIRS = dict(
+    sendBuffer=("first", "second"), recvBuffer=("second", "first"),
+    irecvStart=("second", "first"), irecvSize=("second", "first"), irecvGuard=("second", "first"),
+    issendStart=("first", "second"), issendSize=("first", "second"), issendGuard=("first", "second"),
+    waitanyInfo=("second", "first"),
+    gatherOneSize=("first", "second"), gatherOneIndex=("first", "second"),
+    gatherVarSize=("first", "second"), gatherVarIndex=("first", "second"),
+    scatterOneInfo=("second", "first"), scatterVarInfo=("second", "first"))
+DEFAULT_WRAPPERS = dict(forward1=(True, 0, 0), backward1=(False, 0, 0), forward2=(True, 0, 1), backward2=(False, 1, 0))
+_LAYOUT_ONE = dict(cond="(decide (nF + nS > 0))", firstStart="s0", firstSize="(nF * sz)", secondStart="s1",
+                   secondSize="(nS * sz)", inc0="nF", inc1="nS", firstCont="first", secondCont="second")
+DEFAULT_LAYOUT = dict(A=dict(_LAYOUT_ONE), B=dict(_LAYOUT_ONE))
+DEFAULT_STRIP = "((n1 == 0) && (n2 == 0))"
+
+
+def _defs(src, name_re):
+    """[(parameter text, body)] of every out-of-class definition `BufferedCommunicator::<name_re>(...) [const] {`"""
+    out = []
+    for m in re.finditer(r"BufferedCommunicator\s*::\s*" + name_re + r"\s*\(([^)]*)\)\s*(?:const)?\s*\{", src):
+        out.append((m, src[m.end() - 1:_matching(src, m.end() - 1) + 1]))
+    return out
+
+
+def _param_names(text):
+    names = []
+    for p in text.split(","):
+        w = re.sub(r"\[\[[^\]]*\]\]", " ", p).replace("&", " ").replace("*", " ").split()
+        if w:
+            names.append(w[-1])
+    return names
+
+
+def _forward_blocks(body, flag="FORWARD"):
+    """[(then block, else block)] of every `if(FORWARD) {..} else {..}`"""
+    out = []
+    for m in re.finditer(r"\bif\s*\(\s*" + flag + r"\s*\)\s*\{", body):
+        e = _matching(body, m.end() - 1)
+        m2 = re.match(r"\s*else\s*\{", body[e + 1:])
+        if not m2:
+            raise TranslateError("sendRecv: if(FORWARD) without else block")
+        s2 = e + 1 + m2.end() - 1
+        out.append((body[m.end() - 1:e + 1], body[s2:_matching(body, s2) + 1]))
+    return out
+
+
+_TERN = (r"\(?\s*(!?)\s*(\w+)\s*\)?\s*\?\s*%s\s*->\s*second\s*\.\s*(first|second)\s*(\.\s*size\s*\(\s*\)|\[\s*\w+\s*\])?"
+         r"\s*:\s*%s\s*->\s*second\s*\.\s*(first|second)\s*(\.\s*size\s*\(\s*\)|\[\s*\w+\s*\])?")
+
+
+def _ternaries(body, var, flags):
+    """{kind: (side if forward, side if backward)} for every `FLAG ? var->second.X<suffix> : var->second.Y<suffix>`"""
+    res = {}
+    for t in re.finditer(_TERN % (var, var), body):
+        neg, flag, a, sa, b, sb = t.groups()
+        if flag not in flags:
+            raise TranslateError("selector on %r, not on the direction flag" % flag)
+        kind = lambda x: "whole" if not x else ("size" if "size" in x else "index")
+        if kind(sa) != kind(sb):
+            raise TranslateError("the two branches of a direction selector access different things")
+        if neg:
+            a, b = b, a
+        if kind(sa) in res:
+            raise TranslateError("more than one %s selector" % kind(sa))
+        res[kind(sa)] = (a, b)
+    return res
+
+
+def parse_directions(src):
+    src = _strip_comments(src)
+    d = {}
+    if len(re.findall(r"constexpr\s+static\s+bool\s+forward\s*=\s*send\s*;", src)) != 4:
+        raise TranslateError("MessageGatherer/MessageScatterer: `constexpr static bool forward = send;` expected four times")
+    # gatherers and scatterers
+    for cls, var, kinds in (("MessageGatherer", "interfacePair", ("size", "index")), ("MessageScatterer", "infoPair", ("whole",))):
+        for flavour, tag in (("SizeOne", "One"), ("VariableSize", "Var")):
+            ms = list(re.finditer(r"BufferedCommunicator\s*::\s*" + cls + r"\s*<\s*Data\s*,\s*GatherScatter\s*,\s*(\w+)\s*,\s*" + flavour +
+                                  r"\s*>\s*::\s*operator\s*\(\s*\)\s*\(([^)]*)\)\s*const\s*\{", src))
+            if len(ms) != 1:
+                raise TranslateError("%s<..,%s>::operator() not found" % (cls, flavour))
+            body = src[ms[0].end() - 1:_matching(src, ms[0].end() - 1) + 1]
+            t = _ternaries(body, var, (ms[0].group(1), "forward"))
+            if sorted(t) != sorted(kinds):
+                raise TranslateError("%s<..,%s>: direction selectors %r, expected %r" % (cls, flavour, sorted(t), sorted(kinds)))
+            if len(re.findall(var + r"\s*->\s*second\s*\.\s*(?:first|second)", body)) != 2 * len(kinds):
+                raise TranslateError("%s<..,%s>: interface entry accessed outside the direction selectors" % (cls, flavour))
+            if cls == "MessageGatherer":
+                d["gather%sSize" % tag], d["gather%sIndex" % tag] = t["size"], t["index"]
+            else:
+                d["scatter%sInfo" % tag] = t["whole"]
+    # sendRecv
+    sr = _defs(src, "sendRecv")
+    if len(sr) != 1:
+        raise TranslateError("definition of BufferedCommunicator::sendRecv not found")
+    body = sr[0][1]
+    seen = set()
+    side = r"info\s*->\s*second\s*\.\s*(first|second)\s*\.\s*"
+    for th, el in _forward_blocks(body):
+        if "MPI_Irecv" in th or "MPI_Irecv" in el:
+            kind, call, buf = "irecv", "MPI_Irecv", "recvBuffer"
+        elif "MPI_Issend" in th or "MPI_Issend" in el:
+            kind, call, buf = "issend", "MPI_Issend", "sendBuffer"
+        elif re.search(r"\bsendBuffer\s*=", th):
+            kind = "buffers"
+        else:
+            raise TranslateError("sendRecv: unrecognised if(FORWARD) block")
+        if kind in seen:
+            raise TranslateError("sendRecv: two %s blocks" % kind)
+        seen.add(kind)
+        vals = []
+        for blk in (th, el):
+            if kind == "buffers":
+                s = re.findall(r"\bsendBuffer\s*=\s*reinterpret_cast\s*<[^>]*>\s*\(\s*buffers_\s*\[\s*([01])\s*\]\s*\)\s*;", blk)
+                r = re.findall(r"\brecvBuffer\s*=\s*reinterpret_cast\s*<[^>]*>\s*\(\s*buffers_\s*\[\s*([01])\s*\]\s*\)\s*;", blk)
+                if len(s) != 1 or len(r) != 1 or len(re.findall(r"\b(?:sendBuffer|recvBuffer)\s*=", blk)) != 2:
+                    raise TranslateError("sendRecv: buffer selection not recognised")
+                vals.append((("first", "second")[int(s[0])], ("first", "second")[int(r[0])]))
+            else:
+                c = re.findall(call + r"\s*\(\s*" + buf + r"\s*\+\s*" + side + r"start_\s*,\s*" + side +
+                               r"size_\s*,\s*MPI_BYTE\s*,\s*info\s*->\s*first\s*,", blk)
+                g = re.findall(r"\bif\s*\(\s*" + side + r"size_\s*(?:>\s*0|!=\s*0)?\s*\)", blk)
+                if len(c) != 1 or len(g) != 1 or len(re.findall(r"\bMPI_I\w+\s*\(", blk)) != 1:
+                    raise TranslateError("sendRecv: %s branch not recognised" % call)
+                vals.append((c[0][0], c[0][1], g[0]))
+        if kind == "buffers":
+            d["sendBuffer"] = (vals[0][0], vals[1][0])
+            d["recvBuffer"] = (vals[0][1], vals[1][1])
+        else:
+            for k, name in enumerate(("Start", "Size", "Guard")):
+                d[kind + name] = (vals[0][k], vals[1][k])
+    if seen != {"buffers", "irecv", "issend"}:
+        raise TranslateError("sendRecv: if(FORWARD) blocks found: %r" % sorted(seen))
+    t = _ternaries(body, "infoIter", ("FORWARD",))
+    if sorted(t) != ["whole"]:
+        raise TranslateError("sendRecv: selection of the message information after MPI_Waitany not recognised")
+    d["waitanyInfo"] = t["whole"]
+    if not re.search(r"\(\s*interfaces_\s*,\s*dest\s*,\s*recvBuffer\s*\+\s*info\s*\.\s*start_\s*,\s*proc\s*\)", body):
+        raise TranslateError("sendRecv: scatter call not recognised")
+    if not re.search(r"\(\s*interfaces_\s*,\s*source\s*,\s*sendBuffer\s*,\s*sendBufferSize\s*\)", body):
+        raise TranslateError("sendRecv: gather call not recognised")
+    # wrappers
+    w = {}
+    for name in ("forward", "backward"):
+        for m, wb in _defs(src, name):
+            names = _param_names(m.group(1))
+            c = re.findall(r"sendRecv\s*<\s*GatherScatter\s*,\s*(true|false)\s*>\s*\(\s*(\w+)\s*,\s*(\w+)\s*\)\s*;", wb)
+            if len(c) != 1 or len(names) not in (1, 2) or c[0][1] not in names or c[0][2] not in names:
+                raise TranslateError("%s: call of sendRecv not recognised" % name)
+            key = name + str(len(names))
+            if key in w:
+                raise TranslateError("two definitions of %s with %d parameters" % (name, len(names)))
+            w[key] = (c[0][0] == "true", names.index(c[0][1]), names.index(c[0][2]))
+    if sorted(w) != sorted(DEFAULT_WRAPPERS):
+        raise TranslateError("forward/backward wrappers found: %r" % sorted(w))
+    return d, w
+
+
+DEFAULT_DT = dict(dtTypeSlot=("first", "second"), dtTypeData=("first", "second"),
+                  dtReqRecvType=("second", "first"), dtReqSendType=("first", "second"), dtReqSlot=("second", "first"),
+                  dtReqSendArg=("first", "second"), dtReqRecvArg=("second", "first"),
+                  dtRecvAddr=("second", "second"), dtSendAddr=("first", "first"), dtUseSlot=("second", "first"))
+
+
+def parse_datatype(src):
+    """direction selectors of DatatypeCommunicator: build, createDataTypes, createRequests, forward, backward.
+    Every selector is a pair (value for flag = true, value for flag = false); containers: first = sendData,
+    second = receiveData of `build`; request sets: first = requests_[0], second = requests_[1]"""
+    src = _strip_comments(src)
+    d = {}
+
+    def body_of(name, extra=r"[^)]*"):
+        ms = list(re.finditer(r"DatatypeCommunicator\s*<\s*T\s*>\s*::\s*" + name + r"\s*\((" + extra + r")\)\s*\{", src))
+        if len(ms) != 1:
+            raise TranslateError("DatatypeCommunicator::%s: %d definitions" % (name, len(ms)))
+        return ms[0], src[ms[0].end() - 1:_matching(src, ms[0].end() - 1) + 1]
+    # createDataTypes<.., send>
+    m, b = body_of("createDataTypes")
+    if not re.search(r"buildInterface\s*<\s*RemoteIndices\s*,\s*T1\s*,\s*T2\s*,\s*MPIDatatypeInformation\s*<\s*V\s*>\s*,\s*send\s*>\s*"
+                     r"\(\s*\*\s*remoteIndices_\s*,\s*sourceFlags\s*,\s*destFlags\s*,\s*dataInfo\s*\)", b) or \
+       not re.search(r"MPIDatatypeInformation\s*<\s*V\s*>\s*dataInfo\s*\(\s*data\s*\)\s*;", b):
+        raise TranslateError("createDataTypes: call of buildInterface not recognised")
+    t = re.findall(r"&\s*\(\s*send\s*\?\s*messageTypes\s*\[\s*process\s*->\s*first\s*\]\s*\.\s*(first|second)\s*:\s*"
+                   r"messageTypes\s*\[\s*process\s*->\s*first\s*\]\s*\.\s*(first|second)\s*\)", b)
+    if len(t) != 1 or len(re.findall(r"messageTypes\s*\[", b)) != 2:
+        raise TranslateError("createDataTypes: selection of the datatype slot not recognised")
+    d["dtTypeSlot"] = t[0]
+    # build
+    m, b = body_of("build")
+    names = _param_names(m.group(1))
+    if len(names) != 5:
+        raise TranslateError("DatatypeCommunicator::build: %d parameters" % len(names))
+    cont = {names[2]: "first", names[4]: "second"}
+    cd = dict(re.findall(r"createDataTypes\s*<\s*T1\s*,\s*T2\s*,\s*V\s*,\s*(true|false)\s*>\s*\(\s*" + names[1] + r"\s*,\s*" + names[3] +
+                         r"\s*,\s*(\w+)\s*\)\s*;", b))
+    cr = {k: (x, y) for k, x, y in re.findall(r"createRequests\s*<\s*V\s*,\s*(true|false)\s*>\s*\(\s*(\w+)\s*,\s*(\w+)\s*\)\s*;", b)}
+    if sorted(cd) != ["false", "true"] or sorted(cr) != ["false", "true"] or len(re.findall(r"createDataTypes\s*<", b)) != 2 or \
+       len(re.findall(r"createRequests\s*<", b)) != 2 or any(v not in cont for v in cd.values()) or \
+       any(x not in cont or y not in cont for x, y in cr.values()):
+        raise TranslateError("DatatypeCommunicator::build: calls of createDataTypes/createRequests not recognised")
+    d["dtTypeData"] = (cont[cd["true"]], cont[cd["false"]])
+    d["dtReqSendArg"] = (cont[cr["true"][0]], cont[cr["false"][0]])
+    d["dtReqRecvArg"] = (cont[cr["true"][1]], cont[cr["false"][1]])
+    # createRequests<V, createForward>(sendData, receiveData)
+    m, b = body_of("createRequests")
+    names = _param_names(m.group(1))
+    if len(names) != 2:
+        raise TranslateError("createRequests: %d parameters" % len(names))
+    par = {names[0]: "first", names[1]: "second"}
+    ix = re.findall(r"\bint\s+index\s*=\s*createForward\s*\?\s*([01])\s*:\s*([01])\s*;", b)
+    if len(ix) != 1 or not re.search(r"requests_\s*\[\s*index\s*\]\s*=\s*new\s+MPI_Request", b):
+        raise TranslateError("createRequests: request set index not recognised")
+    d["dtReqSlot"] = (("first", "second")[int(ix[0][0])], ("first", "second")[int(ix[0][1])])
+    loops = [x for x in re.finditer(r"for\s*\(", b)]
+    parts = {}
+    for lp in loops:
+        e = _matching(b, lp.end() - 1, "(", ")")
+        br = b.find("{", e)
+        blk = b[br:_matching(b, br) + 1]
+        ty = re.findall(r"MPI_Datatype\s+type\s*=\s*createForward\s*\?\s*process\s*->\s*second\s*\.\s*(first|second)\s*:\s*"
+                        r"process\s*->\s*second\s*\.\s*(first|second)\s*;", blk)
+        ad = re.findall(r"getAddress\s*\(\s*(\w+)\s*,\s*0\s*\)", blk)
+        call = re.findall(r"\b(MPI_Recv_init|MPI_Ssend_init)\s*\(\s*address\s*,\s*1\s*,\s*type\s*,\s*process\s*->\s*first\s*,", blk)
+        if len(ty) != 1 or len(ad) != 1 or len(call) != 1 or ad[0] not in par or call[0] in parts:
+            raise TranslateError("createRequests: loop not recognised")
+        parts[call[0]] = (ty[0], par[ad[0]])
+    if sorted(parts) != ["MPI_Recv_init", "MPI_Ssend_init"]:
+        raise TranslateError("createRequests: expected one MPI_Recv_init and one MPI_Ssend_init loop")
+    d["dtReqRecvType"], d["dtReqSendType"] = parts["MPI_Recv_init"][0], parts["MPI_Ssend_init"][0]
+    d["dtRecvAddr"] = (parts["MPI_Recv_init"][1],) * 2
+    d["dtSendAddr"] = (parts["MPI_Ssend_init"][1],) * 2
+    # forward / backward
+    use = {}
+    for name in ("forward", "backward"):
+        m, b = body_of(name, r"\s*")
+        u = re.findall(r"sendRecv\s*\(\s*requests_\s*\[\s*([01])\s*\]\s*\)\s*;", b)
+        if len(u) != 1:
+            raise TranslateError("DatatypeCommunicator::%s not recognised" % name)
+        use[name] = ("first", "second")[int(u[0])]
+    d["dtUseSlot"] = (use["forward"], use["backward"])
+    return d
+
+
+_ATOK = re.compile(r"\s*(==|!=|<=|>=|&&|\|\||[!<>()+*]|[A-Za-z_]\w*|\d+)")
+
+
+class _A:
+    """arithmetic/boolean expressions over natural numbers -> Lean (`Nat` / `Bool`)"""
+
+    def __init__(self, text, names):
+        self.t, self.i, self.names = [], 0, names
+        text = text.strip()
+        j = 0
+        while j < len(text):
+            m = _ATOK.match(text, j)
+            if not m:
+                raise TranslateError("expression outside the translator's grammar: %r" % text)
+            self.t.append(m.group(1))
+            j = m.end()
+            while j < len(text) and text[j].isspace():
+                j += 1
+
+    def peek(self):
+        return self.t[self.i] if self.i < len(self.t) else None
+
+    def eat(self, x=None):
+        tok = self.peek()
+        if tok is None or (x is not None and tok != x):
+            raise TranslateError("unexpected token %r (wanted %r)" % (tok, x))
+        self.i += 1
+        return tok
+
+    @staticmethod
+    def truth(e):
+        return e[0] if e[1] == "bool" else "(%s != 0)" % e[0]
+
+    def top(self, want):
+        e = self.disj()
+        if self.peek() is not None:
+            raise TranslateError("trailing tokens in expression")
+        if want == "bool":
+            return self.truth(e)
+        if e[1] != "nat":
+            raise TranslateError("truth value used as a number")
+        return e[0]
+
+    def disj(self):
+        a = self.conj()
+        while self.peek() == "||":
+            self.eat()
+            a = ("(%s || %s)" % (self.truth(a), self.truth(self.conj())), "bool")
+        return a
+
+    def conj(self):
+        a = self.neg()
+        while self.peek() == "&&":
+            self.eat()
+            a = ("(%s && %s)" % (self.truth(a), self.truth(self.neg())), "bool")
+        return a
+
+    def neg(self):
+        if self.peek() == "!":
+            self.eat()
+            return ("(!%s)" % self.truth(self.neg()), "bool")
+        return self.cmp()
+
+    def cmp(self):
+        a = self.sum()
+        op = self.peek()
+        if op in ("==", "!=", "<=", ">=", "<", ">"):
+            self.eat()
+            b = self.sum()
+            if a[1] != "nat" or b[1] != "nat":
+                raise TranslateError("comparison of truth values")
+            lean = {"==": "%s == %s", "!=": "%s != %s", "<=": "decide (%s ≤ %s)", ">=": "decide (%s ≥ %s)",
+                    "<": "decide (%s < %s)", ">": "decide (%s > %s)"}[op]
+            return ("(" + lean % (a[0], b[0]) + ")", "bool")
+        return a
+
+    def sum(self):
+        a = self.prod()
+        while self.peek() == "+":
+            self.eat()
+            b = self.prod()
+            if a[1] != "nat" or b[1] != "nat":
+                raise TranslateError("sum of truth values")
+            a = ("(%s + %s)" % (a[0], b[0]), "nat")
+        return a
+
+    def prod(self):
+        a = self.atom()
+        while self.peek() == "*":
+            self.eat()
+            b = self.atom()
+            if a[1] != "nat" or b[1] != "nat":
+                raise TranslateError("product of truth values")
+            a = ("(%s * %s)" % (a[0], b[0]), "nat")
+        return a
+
+    def atom(self):
+        tok = self.eat()
+        if tok == "(":
+            e = self.disj()
+            self.eat(")")
+            return e
+        if tok.isdigit():
+            return (tok, "nat")
+        if tok in self.names:
+            return (self.names[tok], "nat")
+        raise TranslateError("unexpected token %r in expression" % tok)
+
+
+def _split_args(text):
+    args, depth, cur = [], 0, ""
+    for ch in text:
+        if ch in "(<[":
+            depth += 1
+        elif ch in ")>]":
+            depth -= 1
+        if ch == "," and depth == 0:
+            args.append(cur)
+            cur = ""
+        else:
+            cur += ch
+    args.append(cur)
+    return args
+
+
+def parse_layout(src):
+    """the loop body of the two `BufferedCommunicator::build` overloads"""
+    src = _strip_comments(src)
+    res = {}
+    for m, body in _defs(src, "build"):
+        names = _param_names(m.group(1))
+        if len(names) == 1:
+            key, conts = "A", {}
+        elif len(names) == 3:
+            key, conts = "B", {names[0]: "first", names[1]: "second"}
+        else:
+            raise TranslateError("build: overload with %d parameters" % len(names))
+        if key in res:
+            raise TranslateError("build: two overloads with %d parameters" % len(names))
+        body = re.sub(r"sizeof\s*\(\s*typename\s+CommPolicy\s*<\s*Data\s*>\s*::\s*IndexedType\s*\)", " SZ ", body)
+        body = re.sub(r"bufferSize_\s*\[\s*0\s*\]", " BS0 ", body)
+        body = re.sub(r"bufferSize_\s*\[\s*1\s*\]", " BS1 ", body)
+        loop = re.search(r"for\s*\(\s*const_iterator\s+interfacePair\s*=\s*interfaces_\s*\.\s*begin\s*\(\s*\)\s*;\s*interfacePair\s*!=\s*end\s*;"
+                         r"\s*\+\+\s*interfacePair\s*\)\s*\{", body)
+        if not loop or not re.search(r"\bend\s*=\s*interfaces_\s*\.\s*end\s*\(\s*\)\s*;", body[:loop.start()]):
+            raise TranslateError("build: loop over interfaces_ not recognised")
+        pre, lb = body[:loop.start()], body[loop.end() - 1:_matching(body, loop.end() - 1) + 1]
+        if not (re.search(r"\bBS0\s*=\s*0\s*;", pre) and re.search(r"\bBS1\s*=\s*0\s*;", pre)):
+            raise TranslateError("build: bufferSize_ not initialised with 0 before the loop")
+        if not re.search(r"\bfree\s*\(\s*\)\s*;.*interfaces_\s*=\s*interface\s*\.\s*interfaces\s*\(\s*\)\s*;", pre, flags=re.S):
+            raise TranslateError("build: free(); interfaces_ = interface.interfaces(); not recognised")
+        # the two sizes
+        calc = list(re.finditer(r"\bint\s+(\w+)\s*=\s*MessageSizeCalculator\s*<\s*Data\s*,\s*Flag\s*>\s*\(\s*\)\s*\(\s*(?:(\w+)\s*,\s*)?"
+                                r"interfacePair\s*->\s*second\s*\.\s*(first|second)\s*\)\s*;", lb))
+        if len(calc) != 2 or len(re.findall(r"interfacePair\s*->\s*second", lb)) != 2:
+            raise TranslateError("build: the two MessageSizeCalculator calls not recognised")
+        names_map = {"BS0": "s0", "BS1": "s1", "SZ": "sz"}
+        one = {}
+        for c in calc:
+            var, cont, sd = c.groups()
+            if var in names_map:
+                raise TranslateError("build: size variable %r" % var)
+            names_map[var] = "nF" if sd == "first" else "nS"
+            if key == "B":
+                if cont not in conts:
+                    raise TranslateError("build: message size computed with %r" % cont)
+                one[sd + "Cont"] = conts[cont]
+            elif cont is not None:
+                raise TranslateError("build: unexpected container argument")
+        if key == "A":
+            one["firstCont"], one["secondCont"] = "first", "second"
+        if "firstCont" not in one or "secondCont" not in one:
+            # both sizes from the same member: representable, the theorem decides
+            one.setdefault("firstCont", "first")
+            one.setdefault("secondCont", "second")
+        ins = list(re.finditer(r"messageInformation_\s*\.\s*insert\s*\(", lb))
+        if len(ins) != 1 or ins[0].start() < calc[1].end():
+            raise TranslateError("build: messageInformation_.insert not recognised")
+        ifs = [i for i in re.finditer(r"\bif\s*\(", lb) if i.start() < ins[0].start()]
+        if len(ifs) != 1:
+            raise TranslateError("build: expected one condition before messageInformation_.insert")
+        ce = _matching(lb, ifs[0].end() - 1, "(", ")")
+        if lb[ce + 1:ins[0].start()].strip() not in ("", "{"):
+            raise TranslateError("build: statements between the condition and messageInformation_.insert")
+        one["cond"] = _A(lb[ifs[0].end():ce], names_map).top("bool")
+        ie = _matching(lb, ins[0].end() - 1, "(", ")")
+        call = lb[ins[0].end():ie]
+        mk = re.match(r"\s*std\s*::\s*make_pair\s*\(\s*interfacePair\s*->\s*first\s*,\s*std\s*::\s*make_pair\s*\(\s*MessageInformation\s*\(", call)
+        mis = list(re.finditer(r"MessageInformation\s*\(", call))
+        if not mk or len(mis) != 2:
+            raise TranslateError("build: inserted value not recognised")
+        for mi, tag in zip(mis, ("first", "second")):
+            e = _matching(call, mi.end() - 1, "(", ")")
+            args = _split_args(call[mi.end():e])
+            if len(args) != 2:
+                raise TranslateError("build: MessageInformation with %d arguments" % len(args))
+            one[tag + "Start"] = _A(args[0], names_map).top("nat")
+            one[tag + "Size"] = _A(args[1], names_map).top("nat")
+        between = call[_matching(call, mis[0].end() - 1, "(", ")") + 1:mis[1].start()]
+        if between.strip() != "," or call[_matching(call, mis[1].end() - 1, "(", ")") + 1:].strip() != "))":
+            raise TranslateError("build: inserted value not recognised")
+        # the increments, after the insertion
+        tail = lb[ie:]
+        for k in ("0", "1"):
+            inc = re.findall(r"\bBS" + k + r"\s*\+=\s*([^;]+);", lb)
+            if len(inc) != 1 or len(re.findall(r"\bBS" + k + r"\s*\+=\s*([^;]+);", tail)) != 1 or \
+               len(re.findall(r"\bBS" + k + r"\s*(?:[-+*/]?=[^=]|\+\+|--)", lb)) != 1:
+                raise TranslateError("build: increment of bufferSize_[%s] not recognised" % k)
+            one["inc" + k] = _A(inc[0], names_map).top("nat")
+        post = body[_matching(body, loop.end() - 1) + 1:]
+        for k in ("0", "1"):
+            if not re.search(r"\bBS" + k + r"\s*\*=\s*SZ\s*;", post) or \
+               not re.search(r"buffers_\s*\[\s*" + k + r"\s*\]\s*=\s*new\s+char\s*\[\s*BS" + k + r"\s*\]\s*;", post):
+                raise TranslateError("build: allocation of buffers_[%s] not recognised" % k)
+        res[key] = one
+    if sorted(res) != ["A", "B"]:
+        raise TranslateError("build: overloads found: %r" % sorted(res))
+    return res
+
+
+def parse_strip(src):
+    src = _strip_comments(src)
+    m = re.search(r"void\s+Interface\s*::\s*strip\s*\(\s*\)\s*\{", src)
+    if not m:
+        raise TranslateError("definition of Interface::strip not found")
+    body = src[m.end() - 1:_matching(src, m.end() - 1) + 1]
+    body = re.sub(r"interfacePair\s*->\s*second\s*\.\s*first\s*\.\s*size\s*\(\s*\)", " N1 ", body)
+    body = re.sub(r"interfacePair\s*->\s*second\s*\.\s*second\s*\.\s*size\s*\(\s*\)", " N2 ", body)
+    ifs = list(re.finditer(r"\bif\s*\(", body))
+    if len(ifs) != 1:
+        raise TranslateError("strip: expected one condition")
+    ce = _matching(body, ifs[0].end() - 1, "(", ")")
+    cond = _A(body[ifs[0].end():ce], {"N1": "n1", "N2": "n2"}).top("bool")
+    rest = body[ce + 1:]
+    m2 = re.match(r"\s*\{", rest)
+    if not m2:
+        raise TranslateError("strip: erase branch not recognised")
+    e = _matching(rest, m2.end() - 1)
+    then, other = rest[:e + 1], rest[e + 1:]
+    if not re.search(r"interfaces_\s*\.\s*erase\s*\(", then) or re.search(r"erase\s*\(", other) or \
+       not re.match(r"\s*else\s*\{?\s*\+\+\s*interfacePair\s*;", other):
+        raise TranslateError("strip: erase / advance structure not recognised")
+    return cond
 
 
 # ---------------------------------------------------------------------------------------------------------------
@@ -350,6 +851,34 @@ def analyse(repo):
     except (TranslateError, OSError) as ex:
         bounds = dict(DEFAULT_BOUNDS)
         status["sendRecv"] = str(ex)
+    try:
+        with open(os.path.join(repo, "dune/common/parallel/communicator.hh")) as f:
+            dirs, wrappers = parse_directions(f.read())
+        status["directions"] = None
+    except (TranslateError, OSError) as ex:
+        dirs, wrappers = dict(DEFAULT_DIRS), dict(DEFAULT_WRAPPERS)
+        status["directions"] = str(ex)
+    try:
+        with open(os.path.join(repo, "dune/common/parallel/communicator.hh")) as f:
+            lay = parse_layout(f.read())
+        status["buildLayout"] = None
+    except (TranslateError, OSError) as ex:
+        lay = {k: dict(v) for k, v in DEFAULT_LAYOUT.items()}
+        status["buildLayout"] = str(ex)
+    try:
+        with open(os.path.join(repo, "dune/common/parallel/interface.hh")) as f:
+            stripc = parse_strip(f.read())
+        status["strip"] = None
+    except (TranslateError, OSError) as ex:
+        stripc = DEFAULT_STRIP
+        status["strip"] = str(ex)
+    try:
+        with open(os.path.join(repo, "dune/common/parallel/communicator.hh")) as f:
+            dt = parse_datatype(f.read())
+        status["datatype"] = None
+    except (TranslateError, OSError) as ex:
+        dt = dict(DEFAULT_DT)
+        status["datatype"] = str(ex)
     bodies = {}
     try:
         with open(os.path.join(repo, "dune/common/enumset.hh")) as f:
@@ -365,7 +894,7 @@ def analyse(repo):
         except TranslateError as ex:
             bodies[cls] = default
             status["enumset:" + cls] = str(ex)
-    return dict(tests=tests, bodies=bodies, bounds=bounds, status=status)
+    return dict(tests=tests, bodies=bodies, bounds=bounds, dirs=dirs, wrappers=wrappers, layout=lay, strip=stripc, dt=dt, status=status)
 
 
 def status(repo):
@@ -431,6 +960,82 @@ def render(a):
     out.append("def recvWaitCount : Bound := .%s" % b["recvCount"])
     out.append("/-- number of entries of `sendRequests` (indexed like `messageInformation_`) that are waited for before `sendRecv` returns -/")
     out.append("def sendWaitBound : Bound := .%s" % b["sendWait"])
+    out.append("")
+    out.append("/-! round four: the direction selectors of communicator.hh -/")
+    out.append("/-- a member of a `std::pair` (of `InterfaceInformation`s, of `MessageInformation`s) resp. `buffers_[0]` / `buffers_[1]` -/")
+    out.append("inductive Side where")
+    out.append("  | first")
+    out.append("  | second")
+    out.append("  deriving DecidableEq, Repr")
+    out.append("")
+    out.append("/-- `FORWARD ? fwd : bwd` -/")
+    out.append("structure DirSel where")
+    out.append("  fwd : Side")
+    out.append("  bwd : Side")
+    out.append("  deriving DecidableEq, Repr")
+    out.append("")
+    out.append("def DirSel.side (d : DirSel) (forward : Bool) : Side := if forward then d.fwd else d.bwd")
+    out.append("")
+    doc = dict(sendBuffer="`sendRecv`: the buffer gathered into and sent from", recvBuffer="`sendRecv`: the buffer received into and scattered from",
+               irecvStart="`MPI_Irecv(recvBuffer + info->second.?.start_, ..)`", irecvSize="`MPI_Irecv(.., info->second.?.size_, ..)`",
+               irecvGuard="`if(info->second.?.size_)` around `MPI_Irecv`", issendStart="`MPI_Issend(sendBuffer + info->second.?.start_, ..)`",
+               issendSize="`MPI_Issend(.., info->second.?.size_, ..)`", issendGuard="`if(info->second.?.size_)` around `MPI_Issend`",
+               waitanyInfo="the `MessageInformation` whose `start_` locates the completed message in the receive buffer",
+               gatherOneSize="`MessageGatherer<..,SizeOne>`: loop bound", gatherOneIndex="`MessageGatherer<..,SizeOne>`: index gathered",
+               gatherVarSize="`MessageGatherer<..,VariableSize>`: loop bound", gatherVarIndex="`MessageGatherer<..,VariableSize>`: index gathered",
+               scatterOneInfo="`MessageScatterer<..,SizeOne>`: index list scattered to", scatterVarInfo="`MessageScatterer<..,VariableSize>`: index list scattered to")
+    for k in DEFAULT_DIRS:
+        out.append("/-- %s -/" % doc[k])
+        out.append("def %s : DirSel := ⟨.%s, .%s⟩" % (k, a["dirs"][k][0], a["dirs"][k][1]))
+    out.append("")
+    out.append("/-! round four: `DatatypeCommunicator`.  Flags: `send` (createDataTypes), `createForward` (createRequests), direction")
+    out.append("    (forward()/backward()).  Containers: `first` = `sendData`, `second` = `receiveData` of `build`; datatype slots: the members of the")
+    out.append("    `messageTypes` entry; request sets: `first` = `requests_[0]`, `second` = `requests_[1]`; `dtRecvAddr`/`dtSendAddr`: the parameter of")
+    out.append("    `createRequests(sendData, receiveData)` whose address is used -/")
+    ddoc = dict(dtTypeSlot="`createDataTypes<..,send>` stores the type built from the lists of `buildInterface<..,send>` into",
+                dtTypeData="`build`: the container `createDataTypes<..,send>` computes the displacements on",
+                dtReqRecvType="`createRequests<V,createForward>`: datatype of `MPI_Recv_init`", dtReqSendType="datatype of `MPI_Ssend_init`",
+                dtReqSlot="`createRequests<V,createForward>` fills", dtReqSendArg="`build`: container passed as `sendData` to `createRequests<V,createForward>`",
+                dtReqRecvArg="`build`: container passed as `receiveData`", dtRecvAddr="parameter whose address `MPI_Recv_init` uses",
+                dtSendAddr="parameter whose address `MPI_Ssend_init` uses", dtUseSlot="`forward()` / `backward()` start the request set")
+    for k in DEFAULT_DT:
+        out.append("/-- %s -/" % ddoc[k])
+        out.append("def %s : DirSel := ⟨.%s, .%s⟩" % (k, a["dt"][k][0], a["dt"][k][1]))
+    out.append("")
+    out.append("/-- a `forward`/`backward` member: `sendRecv<GatherScatter,fwd>(arg[gatherArg], arg[scatterArg])` -/")
+    out.append("structure Wrapper where")
+    out.append("  fwd : Bool")
+    out.append("  gatherArg : Nat")
+    out.append("  scatterArg : Nat")
+    out.append("  deriving DecidableEq, Repr")
+    out.append("")
+    wdoc = dict(forward1="forward<GS>(Data& data)", backward1="backward<GS>(Data& data)",
+                forward2="forward<GS>(const Data& source, Data& dest)", backward2="backward<GS>(Data& source, const Data& dest)")
+    for k in DEFAULT_WRAPPERS:
+        v = a["wrappers"][k]
+        out.append("/-- `%s` -/" % wdoc[k])
+        out.append("def %s : Wrapper := ⟨%s, %d, %d⟩" % (k, "true" if v[0] else "false", v[1], v[2]))
+    out.append("")
+    out.append("/-! round four: the loop body of `BufferedCommunicator::build`; `two = false`: `build<Data>(interface)`, `two = true`:")
+    out.append("    `build(source, dest, interface)`.  `nF`/`nS`: the message sizes computed from the `first`/`second` member of the interface entry,")
+    out.append("    `s0`/`s1`: `bufferSize_[0]`/`bufferSize_[1]` before this neighbour, `sz`: `sizeof(IndexedType)` -/")
+    L = a["layout"]
+    ldoc = dict(cond=("layoutCond", "Bool", "condition under which an entry of `messageInformation_` is inserted"),
+                firstStart=("layoutFirstStart", "Nat", "`start_` of the first `MessageInformation`"),
+                firstSize=("layoutFirstSize", "Nat", "`size_` of the first `MessageInformation`"),
+                secondStart=("layoutSecondStart", "Nat", "`start_` of the second `MessageInformation`"),
+                secondSize=("layoutSecondSize", "Nat", "`size_` of the second `MessageInformation`"),
+                inc0=("layoutInc0", "Nat", "`bufferSize_[0] += …`"), inc1=("layoutInc1", "Nat", "`bufferSize_[1] += …`"))
+    for k, (name, ty, d) in ldoc.items():
+        out.append("/-- %s -/" % d)
+        out.append("def %s (two : Bool) (nF nS s0 s1 sz : Nat) : %s := if two then %s else %s" % (name, ty, L["B"][k], L["A"][k]))
+    out.append("/-- the container (`first`: source, `second`: dest) whose `CommPolicy::getSize` sizes the `first` / `second` index list")
+    out.append("    (`build<Data>(interface)` has no containers: SizeOne) -/")
+    out.append("def layoutFirstCont (two : Bool) : Side := if two then .%s else .%s" % (L["B"]["firstCont"], L["A"]["firstCont"]))
+    out.append("def layoutSecondCont (two : Bool) : Side := if two then .%s else .%s" % (L["B"]["secondCont"], L["A"]["secondCont"]))
+    out.append("")
+    out.append("/-- round four: `Interface::strip` erases the neighbour whose lists have `n1` and `n2` entries iff -/")
+    out.append("def stripErase (n1 n2 : Nat) : Bool := %s" % a["strip"])
     out.append("")
     out.append("/-- which items were read from the source (`false`: outside the translator's grammar, built-in transcription used) -/")
     out.append("def translated : List (String × Bool) :=")
